@@ -259,4 +259,10 @@ def msgAttBodyStructure : Parser AttributeValue := do
   let b ← body
   pure (.bodyStructure b)
 
+/-- `"BODY" SP body`: the non-extensible form -/
+def msgAttBody : Parser AttributeValue := do
+  tagNoCase (b!"BODY ")
+  let b ← body
+  pure (.bodyStructure b)
+
 end Grammar
